@@ -193,7 +193,9 @@ def sim_check(prop, tier, seed, scenarios, spec, rule_filter, required_counters,
             violations.append({"sig": sig, "what": f"{rule} in scenario {sc.get('name')} (event {v['line'] - a + 1}, t={v['t']}us)",
                                "replay": path})
     missing = [c for c, m in required_counters.items() if res["counters"].get(c, 0) < m]
-    if missing:
+    # a vacuity guard protects a PASS verdict; when the rules already found violations the low counters are a consequence of the
+    # broken behaviour (scenarios that hang or crash produce fewer events), not a reason to withhold the verdict
+    if missing and not violations:
         raise ToolError(f"vacuity guard: counters {missing} too low: {res['counters']}")
     samples = []
     for k in (0, len(scenarios) // 2, len(scenarios) - 1):
